@@ -127,6 +127,33 @@ CLAIMED["C18"] = dict(
     note=TB + "libm is an oracle evaluated in the same process; agreement across units (90 deg vs pi/2 rad) is C03's conversion accuracy",
     technique="Coq proof + closed evaluation on regenerated tables + differential check against libm oracle")
 
+CLAIMED["C01"] = dict(
+    text="Axiom-free Coq theorems for exponent vectors of ANY length with unbounded integers: position-wise sum/difference/negation/product, roots "
+         "exactly when divisible (inverting the power), abelian-group laws; and about the typing judgement `ty`: * / recip powi sqrt cbrt mul_add "
+         "give the prescribed exponents and the default kind, a number on the left keeps the kind, + - % neg scalar rounding/sign/min/max/hypot "
+         "return the left operand's type, a default-kind alias of the prescribed exponents accepts the product; tie: ~5 000 one-line programs "
+         "over all 115 SI aliases and synthetic all-distinct exponent vectors compiled by rustc (with and without autoconvert), verdict and "
+         "static result type (to_i32 of every exponent, Kind, base units) compared with the extracted judgement",
+    note=TB + "typenum's type-level arithmetic is modelled as Z and validated on the exponents in use; rustc is the implementation for compile-time properties",
+    technique="Coq proof + program-family correspondence against rustc")
+CLAIMED["C02"] = dict(
+    text="Axiom-free Coq theorems about `ty` for any kind table: additive/assigning operators only between the same dimension and kind carrying the "
+         "marker, with exactly the point/interval exceptions; comparisons, let-binding, foreign units, roots, conversions; on the regenerated SI "
+         "tables: temperature points cannot be added/subtracted/negated in any configuration, point+/-interval and interval+point give points, "
+         "impl_from! pairs always have one default-kind side and never the temperature kind, only the temperature kind lacks markers; tie: ~40 000 "
+         "generated programs per run (ordered class pairs x 16 forms, positive controls, mixed base sets, roots, number conversions; with and "
+         "without autoconvert) classified per function by rustc JSON diagnostics behind sentinel-guarded shards",
+    note=TB + "quantifies over the generated program family, not all Rust programs; error codes are recorded (E0308/E0277/E0599/E0600), not judged",
+    technique="Coq proof + program-family correspondence against rustc")
+CLAIMED["C15"] = dict(
+    text="Axiom-free Coq theorems: a conversion never changes an exponent and exists only as identity or through an impl_from! pair (SI: one side is "
+         "always the default kind); numbers convert only to/from the default-kind dimensionless quantity; at exact storage the converted value has "
+         "the same physical magnitude in the target's base units; with shared base units or without autoconvert the value is copied; tie: every "
+         "special-kind SI quantity <-> default-kind twin, From and Into, f64/f32/BigRational over ordered base-set pairs and i64, number<->Ratio, "
+         "against the extracted model (bit-exact/exact) and the magnitude equation; plus conversion programs classified by rustc",
+    note=TB + "float accuracy of the re-basing inside a conversion is C06's",
+    technique="Coq proof + extracted-model correspondence + program-family correspondence")
+
 NOT_YET = "check under construction in this build phase; will be claimed once bin/check implements it"
 
 
